@@ -812,6 +812,39 @@ fn conc_mode(inputs: &[Value], seed: u64, si: usize, sn: usize, out: &mut TraceO
             }
             // A get is parked between its index lookup and its file read; a complete merge pass is
             // attempted meanwhile.  The merge must wait for the get (or the get must still succeed).
+            // Read-path faults: the first gets fail to open their data file (out of descriptors), once or
+            // twice per pooled reader.  Failed gets are earlier operations like any other: afterwards every
+            // key must read its value, no get may wait for a reader that never comes back.
+            "read-fault" => {
+                let pool = inp["pool"].as_u64().unwrap_or(1) as usize;
+                let fails = inp["fails"].as_u64().unwrap_or(2) as u32;
+                let cfg = json!({"concurrency": pool, "readers_cache_size": 1, "max_file_size": 60});
+                shim::start(&dir, false);
+                let kv = make_config(&dir, &cfg).open().expect("open");
+                let h = kv.get_handle();
+                for j in 0..6 {
+                    let _ = h.set(Bytes::from(format!("k{j}")), Bytes::from(format!("value{j}")));
+                }
+                shim::fail_next_read_opens(fails, libc::EMFILE);
+                let mut failed = vec![];
+                for j in 0..fails as usize {
+                    let (h4, kb) = (h.clone(), format!("k{}", j % 6).into_bytes());
+                    failed.push(json!(with_watchdog(move || get_res(&h4, &kb), Duration::from_secs(3))));
+                }
+                let left = shim::read_open_failures_left();
+                shim::fail_next_read_opens(0, 0);
+                let mut after = vec![];
+                for round in 0..2 {
+                    for j in 0..6 {
+                        let (h4, kb) = (h.clone(), format!("k{j}").into_bytes());
+                        let r = with_watchdog(move || get_res(&h4, &kb), Duration::from_secs(3));
+                        after.push(json!({"k": format!("k{j}"), "res": r, "want": format!("value{j}"), "round": round}));
+                    }
+                }
+                out.emit(&json!({"ev": "conc", "kind": kind, "input": inp, "failed": failed, "left": left, "after": after}));
+                shim::stop();
+                drop(kv);
+            }
             "forced-merge-vs-get" => {
                 let cfg = json!({"concurrency": 1, "max_file_size": 60,
                                  "merge": {"thresholds": {"fragmentation": 0.0, "dead_bytes": 0, "small_file": 1_000_000}}});
